@@ -78,7 +78,7 @@ import lcm  # noqa: E402
 if not os.path.abspath(lcm.__file__).startswith(os.path.abspath(SRC)):
     raise RuntimeError(f"lcm imported from {lcm.__file__}, expected under {SRC}")
 
-TOL = 1e-9 if X64 else 1e-4
+TOL = 1e-9 if X64 else 1e-3  # single precision: deviations up to 1.2e-4 were observed on the unchanged tree (thorough sweep)
 
 
 def have_icontract():
